@@ -88,6 +88,13 @@ Theorem engines_agree : forall d cits minx fs, no_crossref_var fs = true ->
 Proof. exact engines_agree_l. Qed.
 Print Assumptions engines_agree.
 
+(* the BST variable crossref: the canonical key of the entry the crossref field resolves to;
+   missing (never a crash) when there is no crossref field or the target is dangling *)
+Theorem crossref_variable : forall d e,
+  crossref_value d e = Ok (match parent d e with Some p => BStr (e_key p) | None => BMissing (s2l "crossref") end).
+Proof. exact crossref_value_spec_l. Qed.
+Print Assumptions crossref_variable.
+
 (* sensitivity (why the two fix: commits matter): without the visited test the lookup of any
    field on  @misc{a, crossref = {a}}  exhausts every fuel (Python: RecursionError, F4) ... *)
 Theorem visited_test_needed : forall fuel,
